@@ -13,7 +13,17 @@ harness.universe / harness.c01).  Contracts (deal) on sidecar wrappers of the re
                                   produces when re-applied to a class of the search: the rule itself, its reverse for
                                   a child index, its equivalence form, the reverse / equivalence of those
         post "productive"       : an independent Kleene iteration over (parent, children, shifts) only sends every
-                                  class of the specification to infinity
+                                  class of the specification to infinity -- judged twice: with the shifts the rules
+                                  declare, and with shifts derived HERE from (constructor kind, minimum sizes of the
+                                  classes by brute force), without calling any shifts() of the library
+        post "shifts-vs-oracle" : the triple handed to that judgement is the real one: the shifts a rule declares
+                                  equal the independently derived ones (union-like forms: 0; product: sum of the
+                                  minimum sizes of the other factors; quotient counting factor i of P = prod F_j:
+                                  -(sum_{j != i} min F_j) for P and min F_i - min F_j for the sibling F_j)
+
+The family is that of c01, including its local packs (renamed statistics inside equivalence paths; one-way unary rules
+closing a directed cycle -- a rule set in which such a cycle is used as the rule of its classes is not productive;
+products with the non-atom factor first; local statistic names).
 """
 from __future__ import annotations
 
@@ -27,9 +37,17 @@ import deal
 
 from comb_spec_searcher import CombinatorialSpecification, CombinatorialSpecificationSearcher
 from comb_spec_searcher.exception import StrategyDoesNotApply
+from comb_spec_searcher.strategies.constructor import (
+    CartesianProduct,
+    Complement,
+    DisjointUnion,
+    Quotient,
+)
 from comb_spec_searcher.strategies.rule import (
     AbstractRule,
     EquivalencePathRule,
+    EquivalenceRule,
+    ReverseRule,
     Rule,
     VerificationRule,
 )
@@ -42,7 +60,6 @@ from comb_spec_searcher.utils import TermsCache
 
 from harness import c01
 from harness.universe import (
-    PACKS,
     START_CLASSES,
     brute_objects,
     class_from_repr,
@@ -103,6 +120,41 @@ def kleene_productive(rules: List[Tuple[object, Tuple[object, ...], Tuple[int, .
                 value[parent] = new
                 changed = True
     return {c: value[i] for c, i in index.items()}
+
+
+def oracle_min_size(comb_class) -> Optional[int]:
+    """Smallest size of a word of the class by brute force (every word starts with the prefix); None when empty."""
+    n = len(comb_class.prefix)
+    return n if brute_objects(comb_class, n) else None
+
+
+def oracle_shifts(rule) -> Optional[Tuple[int, ...]]:
+    """The reliance of a rule on its children, derived from the kind of its constructor and the brute-force minimum
+    sizes only (no shifts() of the library is called).  Term n of the parent needs child i up to size n - shift_i.
+    None when the derivation does not apply (an empty factor)."""
+    if isinstance(rule, VerificationRule):
+        return ()
+    if isinstance(rule, (EquivalencePathRule, EquivalenceRule)):
+        return tuple(0 for _ in rule.children)
+    cons = rule.constructor
+    if isinstance(cons, (DisjointUnion, Complement)):
+        return tuple(0 for _ in rule.children)
+    if isinstance(cons, CartesianProduct):
+        mins = [oracle_min_size(c) for c in rule.children]
+        if None in mins:
+            return None
+        return tuple(sum(mins) - m for m in mins)
+    if isinstance(cons, Quotient) and isinstance(rule, ReverseRule):
+        factors = rule.original_rule.children
+        idx = rule.idx
+        mins = [oracle_min_size(c) for c in factors]
+        if None in mins:
+            return None
+        # P_N = sum over compositions of prod F_j; solving for (F_idx)_n uses P_{n + s}, s = sum of the other minima,
+        # and F_j up to size n + s - (sum of the minima of the factors other than F_j) = n - (min F_idx - min F_j)
+        others = sum(mins) - mins[idx]
+        return (-others,) + tuple(mins[idx] - m for j, m in enumerate(mins) if j != idx)
+    raise ValueError(f"no shift oracle for {type(rule).__name__} with {type(cons).__name__}")
 
 
 # --------------------------------------------------------------------------------------------------------------
@@ -245,25 +297,58 @@ def clause_genuine(searcher, spec) -> bool:
     return True
 
 
-def clause_productive(searcher, spec) -> bool:
-    FIRED["auto_search: productive"] += 1
-    triples = [
-        (rule.comb_class, tuple(rule.children), tuple(rule.shifts()))
-        for rule in spec.rules_dict.values()
-    ]
+def _not_productive(spec, triples) -> List:
     value = kleene_productive(triples)
-    bad = [
-        c
+    return [
+        (c, value[c])
         for c in value
         if value[c] != INF and (c in spec.rules_dict or not oracle_empty(c))
     ]
+
+
+def clause_productive(searcher, spec) -> bool:
+    FIRED["auto_search: productive"] += 1
+    declared = [
+        (rule.comb_class, tuple(rule.children), tuple(rule.shifts()))
+        for rule in spec.rules_dict.values()
+    ]
+    bad = _not_productive(spec, declared)
     if bad:
         DETAIL["productive"] = (
-            f"{len(bad)} classes never get all their terms, e.g. {bad[0]!r} gets {value[bad[0]]}"
+            f"{len(bad)} classes never get all their terms, e.g. {bad[0][0]!r} gets {bad[0][1]}"
+        )
+        return False
+    FIRED["auto_search: productive (own shifts)"] += 1
+    own = []
+    for rule in spec.rules_dict.values():
+        shifts = oracle_shifts(rule)
+        if shifts is None:  # a product with an empty factor: the parent is empty, nothing relies on the rule
+            shifts = tuple(rule.shifts())
+        own.append((rule.comb_class, tuple(rule.children), shifts))
+    bad = _not_productive(spec, own)
+    if bad:
+        DETAIL["productive"] = (
+            f"with independently derived shifts {len(bad)} classes never get all their terms, e.g. "
+            f"{bad[0][0]!r} gets {bad[0][1]}"
         )
     return not bad
 
 
+def clause_shifts(searcher, spec) -> bool:
+    FIRED["auto_search: shifts-vs-oracle"] += 1
+    for rule in flat_rules(spec):
+        FIRED["shifts derived independently"] += 1
+        own = oracle_shifts(rule)
+        if own is not None and tuple(rule.shifts()) != own:
+            DETAIL["shifts-vs-oracle"] = (
+                f"{type(rule).__name__} {rule.comb_class!r} -> {rule.children!r} ({_constructor_name(rule)}) "
+                f"declares shifts {tuple(rule.shifts())}, derived from the minimum sizes: {own}"
+            )
+            return False
+    return True
+
+
+@deal.ensure(lambda self, result, **kw: clause_shifts(self, result), message="shifts-vs-oracle")
 @deal.ensure(lambda self, result, **kw: clause_productive(self, result), message="productive")
 @deal.ensure(lambda self, result, **kw: clause_genuine(self, result), message="genuine")
 @deal.ensure(lambda self, result, **kw: clause_closed(self, result), message="closed")
@@ -302,7 +387,7 @@ def contracts_installed():
 # --------------------------------------------------------------------------------------------------------------
 
 CONFIGS_PER_COMBO = {"quick": 4, "thorough": 8}
-CHECKS = ("one-rule-per-class", "start-has-rule", "closed", "genuine", "productive")
+CHECKS = ("one-rule-per-class", "start-has-rule", "closed", "genuine", "productive", "shifts-vs-oracle")
 
 
 def run_case(case) -> dict:
@@ -372,7 +457,8 @@ def run(tier: str, seed: int) -> dict:
     n_starts = len(START_CLASSES(tier, seed))
     return {
         "bound": (
-            f"the C01 family: {n_starts} start classes x {len(PACKS)} packs x 3 rule databases, each with "
+            f"the C01 family: {n_starts} start classes x {len(c01.ALL_PACKS)} packs (the universe's and c01's local "
+            f"{sorted(c01.LOCAL_PACKS)}) x 3 rule databases, each with "
             f"{CONFIGS_PER_COMBO[tier]} of {len(c01.OPTIONS) * len(c01.SCHEDULES) * 3} (option, clock schedule, "
             f"rng seed) configurations drawn by seed {seed}; every specification returned by any searcher (nested "
             "searchers of verification strategies included); Kleene iteration capped at "
